@@ -298,3 +298,53 @@ pub fn rsel_arbitrary_root(claims: &Value, r: &mut StdRng) -> Map<String, Value>
         _ => Map::new(),
     }
 }
+
+/// Plants a member named _sd or ... with some value into a random object of the tree (C13).
+pub fn plant_reserved(v: &mut Value, r: &mut StdRng) {
+    // paths to all object nodes (root included)
+    fn objs(v: &Value, pre: &mut Vec<String>, out: &mut Vec<Vec<String>>) {
+        match v {
+            Value::Object(o) => {
+                out.push(pre.clone());
+                for (k, x) in o {
+                    pre.push(k.clone());
+                    objs(x, pre, out);
+                    pre.pop();
+                }
+            }
+            Value::Array(a) => {
+                for (i, x) in a.iter().enumerate() {
+                    pre.push(format!("[{i}]"));
+                    objs(x, pre, out);
+                    pre.pop();
+                }
+            }
+            _ => {}
+        }
+    }
+    let mut all = vec![];
+    objs(v, &mut vec![], &mut all);
+    if all.is_empty() {
+        return;
+    }
+    let path = all[r.gen_range(0..all.len())].clone();
+    let name = if r.gen_bool(0.5) { "_sd" } else { "..." };
+    let val = match r.gen_range(0..5) {
+        0 => json!("x"),
+        1 => json!(["AAAAAAAAAAAAAAAAAAAAAAAAAAAAAAAAAAAAAAAAAAA"]),
+        2 => Value::Null,
+        3 => json!({"a": 1}),
+        _ => json!(7),
+    };
+    let mut cur = v;
+    for t in &path {
+        cur = match cur {
+            Value::Object(o) => o.get_mut(t).unwrap(),
+            Value::Array(a) => a.get_mut(t[1..t.len() - 1].parse::<usize>().unwrap()).unwrap(),
+            _ => return,
+        };
+    }
+    if let Value::Object(o) = cur {
+        o.insert(name.to_string(), val);
+    }
+}
